@@ -175,7 +175,8 @@ class RunResult:
 
 def normalise(text: str, mapping: List[Tuple[str, str]]) -> str:
     for real, label in mapping:
-        if real:
+        # a short relative name such as "s" is no recognisable path: leave it alone
+        if real and os.sep in real and len(real) >= 4:
             text = text.replace(real, label)
     return text
 
